@@ -19,7 +19,7 @@ EXPLANATION = (
     'separate obligation per dict-containing type (finding class dict-missing-value-json).'
 )
 TYPES_PY = 'hail/python/hail/expr/types.py'
-GROUP = 6
+GROUP = 4
 
 
 def encode_sources(R):
@@ -37,7 +37,7 @@ def run(R):
     cat = H.catalogue(R.tier)
     H.TYPES[:] = cat
     encode_sources(R)
-    pct = 60 if R.tier == 'quick' else 300
+    pct = 120 if R.tier == 'quick' else 900
     R.bounds = {'types': f'{len(cat)} types, depth <= 2', 'collections': 'length 0..2', 'ints': '64-bit range',
                 'floats': 'CrossHair reals + NaN, +inf, -inf as explicit cases', 'strings': 'symbolic choice among 6 fixed strings',
                 'ndarray': 'symbolic choice among concrete numpy arrays (C and F order, 1-3 dims); numeric element types only',
